@@ -1,10 +1,12 @@
 (* C11 — a document means the same however it is written or loaded (partial). Pinned statements only.
    Proved: the typing of scalars by the libyaml loader (quoted => string; decimal integers over all of i64; keywords;
    core tags), the short-form tag tables (regenerated from the source), path-free structure preservation
-   (strip . annotate = id). NOT modelled: tokenisation by libyaml / serde_yaml / serde_json - agreement of the three
+   (strip . annotate = id); and - new - that EVALUATION LOOKS AT A DOCUMENT ONLY THROUGH ITS CONTENT: two documents that are
+   equal up to paths and source positions (`er`, Model/Erase.v) get the same verdict and the same rule statuses from every
+   rules file (EraseProps.v: the whole evaluator commutes with erasure, by induction on the fuel). NOT modelled: tokenisation by libyaml / serde_yaml / serde_json - agreement of the three
    loaders on whole documents is checked by correspondence (tools/gv/props/c11.py). *)
-From GV.Model Require Import Value Scalar Tags.
-From GV.Proofs Require Import PathProps DecimalProps ScalarProps TagProps.
+From GV.Model Require Import Value Scalar Tags Erase.
+From GV.Proofs Require Import PathProps DecimalProps ScalarProps TagProps EraseProps.
 Open Scope Z_scope.
 
 Theorem C11_quoted_is_string : forall s, load_scalar TNone Quoted s = KStr s.
@@ -78,3 +80,45 @@ Theorem C11_cli_agrees_with_serde : forall P t (p : P),
   cli_scalar t p = serde_tagged t p /\ cli_sequence t p = serde_tagged t p.
 Proof. exact cli_agrees_with_serde. Qed.
 Print Assumptions C11_cli_agrees_with_serde.
+
+(* ---- evaluation looks at a document only through its content ---- *)
+
+(* the evaluator commutes with forgetting paths and positions: the erased program on the erased document gives the erased result *)
+Theorem C11_evaluation_commutes_with_erasure : forall re conv prog fuel doc,
+  dropR (eval_file re conv (er_prog prog) fuel (er doc)) = erO (fun x => x) (eval_file re conv prog fuel doc).
+Proof. exact eval_file_commutes_with_erasure. Qed.
+Print Assumptions C11_evaluation_commutes_with_erasure.
+
+(* however a document was written or loaded - JSON or YAML, any layout, any base path - if the content is the same the
+   verdict (status, or which error) is the same, for every rules file, oracle and fuel *)
+Theorem C11_verdict_depends_on_content_only : forall re conv prog fuel d1 d2,
+  er d1 = er d2 -> verdict (eval_file re conv prog fuel d1) = verdict (eval_file re conv prog fuel d2).
+Proof. exact verdict_depends_on_content_only. Qed.
+Print Assumptions C11_verdict_depends_on_content_only.
+
+Theorem C11_rule_statuses_depend_on_content_only : forall re conv prog fuel d1 d2 st1 recs1 s1 st2 recs2 s2,
+  er d1 = er d2 ->
+  eval_file re conv prog fuel d1 = Done (st1, recs1, s1) -> eval_file re conv prog fuel d2 = Done (st2, recs2, s2) ->
+  st1 = st2 /\ statuses s1 = statuses s2.
+Proof. exact rule_statuses_depend_on_content_only. Qed.
+Print Assumptions C11_rule_statuses_depend_on_content_only.
+
+(* what a loader attaches to a plain value (the base path, lines and columns) does not matter *)
+Theorem C11_paths_and_positions_do_not_matter : forall re conv prog fuel v p q,
+  verdict (eval_file re conv prog fuel (annotate p v)) = verdict (eval_file re conv prog fuel (annotate q v)).
+Proof. exact verdict_of_a_loaded_value. Qed.
+Print Assumptions C11_paths_and_positions_do_not_matter.
+
+(* nor does it matter where the literals of the rules file were written *)
+Theorem C11_literal_positions_do_not_matter : forall re conv p1 p2 fuel doc,
+  er_prog p1 = er_prog p2 -> verdict (eval_file re conv p1 fuel doc) = verdict (eval_file re conv p2 fuel doc).
+Proof. exact verdict_depends_on_literal_content_only. Qed.
+Print Assumptions C11_literal_positions_do_not_matter.
+
+(* the premise is met by documents that differ: the same content at other paths, lines and columns *)
+Theorem C11_erasure_instance :
+  let d1 := PMap (mkPath "" 1 1) [PString (mkPath "/a" 1 2) "a"] [("a", PList (mkPath "/a" 1 7) [PInt (mkPath "/a/0" 1 8) 1; PString (mkPath "/a/1" 1 11) "x"])] in
+  let d2 := PMap (mkPath "/doc" 7 3) [PString (mkPath "/doc/a" 7 3) "a"] [("a", PList (mkPath "/doc/a" 8 5) [PInt (mkPath "/doc/a/0" 8 7) 1; PString (mkPath "/doc/a/1" 9 7) "x"])] in
+  d1 <> d2 /\ er d1 = er d2.
+Proof. exact erasure_instance. Qed.
+Print Assumptions C11_erasure_instance.
